@@ -33,3 +33,9 @@ pub fn str_from_utf8_stub(v: &[u8]) -> Result<&str, std::str::Utf8Error> {
         }
     }
 }
+
+/// S3b: `<MetadataTLVFieldCode as Display>::fmt` -> writes nothing. The decoders build their "unexpected TLV" error
+/// texts with `.to_string()`, which drags the whole formatting machinery into symbolic execution.
+pub fn tlv_code_display_stub(_c: &cfdp_core::pdu::MetadataTLVFieldCode, _f: &mut std::fmt::Formatter<'_>) -> std::fmt::Result {
+    Ok(())
+}
